@@ -561,11 +561,37 @@ theorem reported_current (gen one : Bool) (op : Op) (x : List Frag) (d : JV) : (
   | mod m => exact modifyM_reported gen Dev.current one m x d
   | rem => exact removeM_reported gen Dev.current one x d
 
-/-- `$[*].a` on `[{"a":1},{"b":2}]` and `$[0:2]` on `[1,2,3]` are clean; `$[0:1]` on `[1,2,3]` is not (inclusive: two
-elements, exclusive: one) -/
+/-- which paths are clean. `$[*].a` on `[{"a":1},{"b":2}]` is. Of the slices only those on which the pinned inclusive
+reading and the specification's exclusive reading select the same indexes of the array at hand: an absent end (`[1:]`,
+`[::2]`: "to the last element" in both readings) or an end at or beyond the length (`[0:5]` on three elements). A slice
+with an explicit end INSIDE the array — `[0:2]` or `[0:1]` on `[1,2,3]`, the ordinary case — is NOT clean: the code
+works on one element more than Get selects (known finding C13-slice-inclusive), and `C13_current` says nothing about
+it; what the code does there is described by `C13_partial`'s model only through the correspondence run. -/
 example : CleanPath [.wild, .child kA] (.arr [objA 1, .obj [(kB, .int 2)]]) := ⟨trivial, fun _ _ => ⟨trivial, fun _ _ => trivial⟩⟩
 
-example : modIdx Dev.current 3 (some 0) (some 1) none = [0, 1] ∧ sliceIdx 3 (some 0) (some 1) none = [0] := ⟨by rfl, by rfl⟩
+/-- clean: `[1:]`, `[::2]`, `[0:5]` on three elements -/
+example : modIdx Dev.current 3 (some 1) none none = sliceIdx 3 (some 1) none none ∧
+    modIdx Dev.current 3 none none (some 2) = sliceIdx 3 none none (some 2) ∧
+    modIdx Dev.current 3 (some 0) (some 5) none = sliceIdx 3 (some 0) (some 5) none := ⟨by rfl, by rfl, by rfl⟩
+
+example : CleanPath [.slice (some 1) none none] (ints [1, 2, 3]) := by
+  refine ⟨?_, fun _ _ => trivial⟩
+  intro xs hx
+  simp only [ints] at hx
+  injection hx with hx
+  subst hx
+  rfl
+
+/-- not clean: `[0:2]` and `[0:1]` on three elements (inclusive: one element more) -/
+example : modIdx Dev.current 3 (some 0) (some 2) none = [0, 1, 2] ∧ sliceIdx 3 (some 0) (some 2) none = [0, 1] ∧
+    modIdx Dev.current 3 (some 0) (some 1) none = [0, 1] ∧ sliceIdx 3 (some 0) (some 1) none = [0] := ⟨by rfl, by rfl, by rfl, by rfl⟩
+
+example : ¬ CleanPath [.slice (some 0) (some 2) none] (ints [1, 2, 3]) := by
+  intro h
+  have := h.1 _ rfl
+  simp [ints] at this
+  revert this
+  decide
 
 /-! ## the One forms change at most one location -/
 
